@@ -1,6 +1,7 @@
 package main
 
 import (
+	"runtime"
 	"fmt"
 	"go/ast"
 	"go/token"
@@ -421,6 +422,18 @@ type solveOpts struct {
 	all     bool
 	workdir string
 	par     int
+}
+
+// solverPar: the number of solver processes run at once - all cores, or GOVC_PAR (used when several checks run side by
+// side, e.g. by tools/selftest.sh, so that together they do not oversubscribe the machine and push queries into timeouts).
+func solverPar() int {
+	if v := os.Getenv("GOVC_PAR"); v != "" {
+		var n int
+		if _, err := fmt.Sscan(v, &n); err == nil && n > 0 {
+			return n
+		}
+	}
+	return runtime.NumCPU()
 }
 
 func solveUnit(r *UnitResult, opts solveOpts) { solveUnits([]*UnitResult{r}, opts) }
